@@ -43,9 +43,25 @@ def run(c, a):
     if thorough:
         evw = run_ops(c, "weak", ["Equals", "NotEqual", "HasElement", "Index", "Length"], prop="C01")
         c.trace("OpsTrace", evw)
+    gen = c.path("types.ndjson")
+    nt = c.tlc_gen("C07Gen", {"VUNIVERSE": "U2" if thorough else "U1", "VOUT": gen})
     # (3) goroutines under the race detector
     race = c.build_harness(race=True)
-    vec = c.concat([c.path("vec-call-%s-0.ndjson" % api) for api in ALL_OPS], c.path("race-vec.ndjson"))
+    # shared operands of standard-library calls (a few functions per family) and shared TYPES as well
+    fjobs, fouts = [], []
+    for mod, fns in (("C13Gen", ["merge", "setunion", "slice", "keys", "lookup", "zipmap"]), ("C14Gen", ["format", "jsonencode", "formatdate", "substr", "join"])):
+        for fn in fns:
+            o = c.path("race-fn-%s.ndjson" % fn)
+            fjobs.append((mod, {"VFN": fn, "VTIER": "quick", "VOUT": o}))
+            fouts.append(o)
+    c.gen_parallel(fjobs)
+    thin = c.path("race-fn-thin.ndjson")
+    with open(thin, "w") as f:
+        for o in fouts:
+            for i, line in enumerate(open(o)):
+                if i % 7 == c.seed % 7 and i < 1400:
+                    f.write(line)
+    vec = c.concat([c.path("vec-call-%s-0.ndjson" % api) for api in ALL_OPS] + [thin, c.path("types.ndjson")], c.path("race-vec.ndjson"))
     rout = c.path("race-ev.ndjson")
     rlog = c.path("race-log")
     res = c.harness("conc", rout, inp=vec, binpath=race, env={"GORACE": "exitcode=66 log_path=%s halt_on_error=0" % rlog}, ok_codes=(0, 66), timeout=1500)
@@ -63,8 +79,6 @@ def run(c, a):
     c.trace("ConcTrace", rout)
     # (5) types: every type of the bounded universe reports the same definition after Equals / TestConformance /
     #     WithoutOptionalAttributesDeep / JSON round trips ran on it (rule C20.TypeImmutable in C07Trace)
-    gen = c.path("types.ndjson")
-    nt = c.tlc_gen("C07Gen", {"VUNIVERSE": "U2" if thorough else "U1", "VOUT": gen})
     tev = c.path("type-events.ndjson")
     c.harness("c07", tev, inp=gen, args=["stride=%d" % (5 if thorough else 40)])
     before = len(c.viol)
